@@ -63,7 +63,7 @@ FactorVerdict2(ev, F, pat, m, n, u, uok, reuse, ilu, wfilu) ==
       leadok == \A k \in 0..(ncols - 1) : Cardinality(rowsAt(k)) = 1
       ipr == [k \in 0..(ncols - 1) |-> CHOOSE i \in rowsAt(k) : TRUE]
       ipc == InvPerm(ev.perm_c, n)
-      numeric == done /\ pcok /\ (info = 0 => prok) /\ leadok /\ wf = "ok" /\ (info > 0 => shapes) /\ F # <<>> /\ uok /\ ~ilu
+      numeric == ~Light /\ done /\ pcok /\ (info = 0 => prok) /\ leadok /\ wf = "ok" /\ (info > 0 => shapes) /\ F # <<>> /\ uok /\ ~ilu
       P == [ij \in Rows(m) \X Rows(n) |-> F[<<ij[1], ipc[ij[2]]>>]]
       st0 == [W |-> P, piv |-> <<>>, sing |-> 0, d2 |-> \A ij \in DOMAIN P : SmallV(P[ij], ty)]
       r == Replay(st0, 0, ncols, m, n, ipr, ipc, u, reuse, ty, {})
@@ -85,7 +85,7 @@ FactorVerdict2(ev, F, pat, m, n, u, uok, reuse, ilu, wfilu) ==
       bad ==
         (IF ~pcok THEN {"C02.perm_c_bijection"} ELSE {})
         \cup (IF info = 0 /\ ~prok THEN {"C02.perm_r_bijection"} ELSE {})
-        \cup (IF wf # "ok" THEN {wf} ELSE {})
+        \cup (IF wf # "ok" THEN {wf, "C02.factors_not_well_formed"} ELSE {})
         \cup (IF done /\ pcok /\ ~leadok THEN {"C04.leading_pivots"} ELSE {})
         \cup (IF numeric THEN r.bad ELSE {})
         \cup (IF numeric /\ info = 0 /\ r.st.sing # 0 THEN {"C04.success_on_singular"} ELSE {})
@@ -93,7 +93,7 @@ FactorVerdict2(ev, F, pat, m, n, u, uok, reuse, ilu, wfilu) ==
         \cup (IF numeric /\ info > 0 /\ atEnd /\ ~NoCandidate(r.st, ncols, m) THEN {"C04.info_but_nonzero_candidate"} ELSE {})
         \* a structurally singular matrix reported as success: when the whole elimination was exact (D2) this is
         \* already C04.success_on_singular; otherwise rounding turned an exact cancellation into a tiny pivot
-        \cup (IF done /\ info = 0 /\ m = n /\ StructurallySingular(pat, m, n) /\ ~(numeric /\ r.st.sing # 0)
+        \cup (IF done /\ info = 0 /\ m = n /\ n <= 10 /\ StructurallySingular(pat, m, n) /\ ~(numeric /\ r.st.sing # 0)
               THEN {"C04.structural_missed_inexact"} ELSE {})
         \cup (IF done /\ wf = "ok" /\ udiag0 THEN {"C02.U_zero_diagonal"} ELSE {})
       arb ==
@@ -358,7 +358,7 @@ GssvxVerdict(ev, sc) ==
       isilu == ev.fn = "gsisx"
       iluExact == isilu /\ ev.opts.DropRule = 0 /\ info = 0       \* dropping disabled, no pivot replaced
       iv == IF isilu THEN IluVerdict(ev) ELSE [bad |-> {}, arb |-> {}, cov |-> {}]
-      fv == IF factored /\ ~Light /\ (~isilu \/ iluExact) THEN FactorVerdict2(ev, F, PatternOf(ev.A0, tr), n, n, Dy(UTok(ev)), UOK(ev), fact = 2 \/ isilu, FALSE, isilu)
+      fv == IF factored /\ (~isilu \/ iluExact) THEN FactorVerdict2(ev, F, PatternOf(ev.A0, tr), n, n, Dy(UTok(ev)), UOK(ev), fact = 2 \/ isilu, FALSE, isilu)
             ELSE [bad |-> {}, arb |-> {}, cov |-> {}, d2 |-> FALSE]
       \* --- solution: op(A0) X = B0 for the caller's original A and B
       opname == IF ev.opts.Trans = 0 THEN "N" ELSE IF ev.opts.Trans = 1 \/ ~cplx THEN "T" ELSE "C"
